@@ -7,7 +7,7 @@ from vlib import *
 
 HEADER = '''From Coq Require Import ZArith List Bool Arith.
 Import ListNotations.
-From PM Require Import Model.Options Corr.OptDriver.
+From PM Require Import Model.Options Model.Objects Corr.OptDriver.
 Set Printing Depth 10000000.
 Set Printing Width 200.
 '''
@@ -54,3 +54,36 @@ def run_cmd(chk, results):
                 chk.tie_broken('correspondence', 'cmd', 'load %d of %r: re-read load sits on pulses %r, model reader gives %r' % (k + 1, r['argv'], sorted(l['reread']), sorted(mres)))
     chk.stages['cmd'] = dict(loads=len(items), compared=ncmp, disagreements=nbad,
                              written_forms={['absolute', 'per-object', 'all', 'all-of-object'][k]: v for k, v in forms.items()})
+
+
+def run_objs(chk, results):
+    """objects and tags: the model reader on the given object options must give the real model's objects (kind, tag,
+    tag-was-given, which option), the model writer the real written object options"""
+    items = [r for r in results if r.get('objs')]
+    if not all(vo_ok(f) for f in ('Corr/OptDriver.v', 'Model/Objects.v')):
+        chk.tie_broken('correspondence', 'objs', 'model (Model/Objects.v) does not compile'); return
+    K = ['KArc', 'KHelix', 'KWire']
+    per = 300
+    groups = [items[k:k + per] for k in range(0, len(items), per)]
+    jobs = [('objs_%d_%d' % (os.getpid(), gi), HEADER + '\n'.join(
+              'Eval vm_compute in (obj_case %s).' % coq_list(['(mkLine %s %s %d)' % (K[k], ('None' if t < 0 else '(Some (%d)%%Z)' % t), b) for k, t, b in r['objs']['given']])
+              for r in g) + '\n') for gi, g in enumerate(groups)]
+    outs = coq_evals(jobs)
+    nbad = ncmp = 0; untagged = 0
+    for g, (rc, out) in zip(groups, outs):
+        blocks = re.findall(r'(?s)=\s*(\[.*?\])\s*:\s*list \(list Z\)', out)
+        if rc != 0 or len(blocks) != len(g):
+            chk.tie_broken('correspondence', 'objs', 'model evaluation failed: ' + out[-600:]); continue
+        for r, b in zip(g, blocks):
+            rows = [[int(x) for x in re.findall(r'-?\d+', row)] for row in re.findall(r'\[([^\[\]]*)\]', b)]
+            ncmp += 1
+            o = r['objs']
+            untagged += sum(1 for x in o['given'] if x[1] < 0)
+            if [-2] not in rows:
+                nbad += 1; chk.tie_broken('correspondence', 'objs', 'the model reader rejects the object options of %r' % r['argv']); continue
+            cut = rows.index([-2]); mm, mw = rows[:cut], rows[cut + 1:]
+            if mm != o['model']:
+                nbad += 1; chk.tie_broken('correspondence', 'objs', 'objects of %r: real model %r, model reader %r' % (r['argv'], o['model'], mm))
+            elif mw != o['written']:
+                nbad += 1; chk.tie_broken('correspondence', 'objs', 'written objects of %r: real %r, model writer %r' % (r['argv'], o['written'], mw))
+    chk.stages['objs'] = dict(command_lines=len(items), compared=ncmp, disagreements=nbad, untagged_objects=untagged)
